@@ -400,7 +400,7 @@ func vfIntersect(a, b []int) []int {
 func TestVerifC03Probes(t *testing.T) {
 	vfSetup(t)
 	c := ev.For("C03")
-	c.Rule("probes: per case one generated bridge (seed), 2-5 probe connections of generated classes (empty, random bytes up to 20000, valid handshake truncated / extended / one bit flipped in representative, padding, mark or MAC, wrong hour +-2/3, wrong identity, byte-identical replay of an accepted handshake, low-order representatives with a valid MAC), each released in generated segments with the armed deadline optionally fired in between, ended by peer disconnect or by firing the virtual deadlines; the last connection goes to a second factory built from the same seed; oracle: accepted handshakes are remembered for at least the three hours they stay valid, zero bytes written, everything sent is consumed, close only after the last armed deadline fired (unless the peer left first), deadline armed before the first read, final deadline = accept + 30 s + d with one whole d in 0..59 common to all connections of the seed; non-trivial = any class other than 'empty'; fingerprint = class, parameters, plan")
+	c.Rule("probes: per case one generated bridge (seed), 2-5 probe connections of generated classes (empty, random bytes up to 20000, valid handshake truncated / extended / one bit flipped in representative, padding, mark or MAC, wrong hour +-2/3, wrong identity, byte-identical replay of an accepted handshake (whose genuine session has meanwhile carried a burst sized around the handshake's own length), low-order representatives with a valid MAC), each released in generated segments with the armed deadline optionally fired in between, ended by peer disconnect or by firing the virtual deadlines; the last connection goes to a second factory built from the same seed; oracle: accepted handshakes are remembered for at least the three hours they stay valid, zero bytes written, everything sent is consumed, close only after the last armed deadline fired (unless the peer left first), deadline armed before the first read, final deadline = accept + 30 s + d with one whole d in 0..59 common to all connections of the seed; non-trivial = any class other than 'empty'; fingerprint = class, parameters, plan")
 	c.Assume("deadline values are judged as intervals around the server's own clock reading (a few ms wide); cases measured on a stalled machine (> 0.5 s between accept and first deadline call) are discarded and counted")
 	for _, cl := range vfProbeClasses {
 		c.Floor("probe-"+cl+"/probe", 0.03)
@@ -447,7 +447,7 @@ func TestVerifC03Probes(t *testing.T) {
 				fac = sf2
 			}
 			if class == "replay" && prior == nil {
-				hs, ok, _, _, sc0, err := vfAcceptOne(sf, br, ent, 0)
+				hs, ok, resp0, cl0, sc0, err := vfAcceptOne(sf, br, ent, 0)
 				if sc0 != nil {
 					defer sc0.n.Shutdown()
 				}
@@ -461,6 +461,33 @@ func TestVerifC03Probes(t *testing.T) {
 					rt.Fatalf("VIOL[c03-valid-rejected]: a valid fresh handshake was not accepted (set-up of the replay class): %v", sc0.ep.SetupErr())
 				}
 				prior = hs
+				// the genuine session goes on: traffic in one segment, sized around the
+				// handshake's own length (what the bridge remembers about the handshake
+				// must not live in memory that session traffic reuses)
+				if target := rapid.SampledFrom([]int{0, len(hs) - 40, len(hs) - 16, len(hs), len(hs) + 200, 8192, 20000}).Draw(rt, "sessionBurst"); target > 0 {
+					if sh, err := cl0.ParseResponse(resp0); err == nil {
+						c2s, _ := refobfs4.Keys(sh.KeySeed)
+						enc := refobfs4.NewEncoder(c2s)
+						var burst []byte
+						sentLen := 0
+						for len(burst) < target {
+							k := target - len(burst) - refobfs4.HeaderLen
+							if k > refobfs4.MaxPacketPayload {
+								k = refobfs4.MaxPacketPayload
+							}
+							if k < 1 {
+								k = 1
+							}
+							burst = append(burst, enc.Frame(refobfs4.PktPayload, vfCounterStream(0, sentLen, k), 0)...)
+							sentLen += k
+						}
+						sc0.n.Inject(wire.A, burst)
+						sc0.n.ReleaseAll(wire.A)
+						if err := sc0.n.WaitQuiescent(wire.B); err != nil {
+							rt.Fatalf("VIOL[c03-wedge]: %v", err)
+						}
+					}
+				}
 			}
 			probe, avoid, desc := vfGenProbe(rt, class, br, ent, hour0, prior)
 			plan := vfGenPlan(rt, len(probe), avoid)
@@ -592,6 +619,7 @@ func TestVerifC04History(t *testing.T) {
 				sc.n.Shutdown()
 			}
 		}()
+		sessionTraffic := false
 		fail := func(f string, a ...any) {
 			if vfHourNow() != hour0 {
 				rt.Skip("hour changed during the case")
@@ -649,6 +677,33 @@ func TestVerifC04History(t *testing.T) {
 					if !bytes.Equal(sc.ep.Got(), msg) {
 						fail("VIOL[c04-session]: accepted session does not carry data to the server (%d of %d bytes, err %v)", sc.ep.GotLen(), len(msg), sc.ep.ReadErr())
 					}
+					// more session traffic in one segment, sized around the handshake's own
+					// length (whatever the server remembered about the handshake must not
+					// live in memory that session traffic reuses)
+					if target := rapid.SampledFrom([]int{0, 0, len(hs) - 40, len(hs) - 16, len(hs), len(hs) + 200, 1448, 8192, 20000}).Draw(rt, "sessionBurst"); target > 0 {
+						var burst []byte
+						sentLen := len(msg)
+						for len(burst) < target {
+							k := target - len(burst) - refobfs4.HeaderLen
+							if k > refobfs4.MaxPacketPayload {
+								k = refobfs4.MaxPacketPayload
+							}
+							if k < 1 {
+								k = 1
+							}
+							burst = append(burst, enc.Frame(refobfs4.PktPayload, vfCounterStream(0, sentLen, k), 0)...)
+							sentLen += k
+						}
+						sc.n.Inject(wire.A, burst)
+						sc.n.ReleaseAll(wire.A)
+						if err := sc.n.WaitQuiescent(wire.B); err != nil {
+							fail("VIOL[c04-wedge]: %v", err)
+						}
+						if !bytes.Equal(sc.ep.Got(), vfCounterStream(0, 0, sentLen)) {
+							fail("VIOL[c04-session]: accepted session does not carry a burst of %d bytes to the server (%d of %d bytes, err %v)", len(burst), sc.ep.GotLen(), sentLen, sc.ep.ReadErr())
+						}
+						sessionTraffic = true
+					}
 				}
 				return true
 			}
@@ -670,6 +725,7 @@ func TestVerifC04History(t *testing.T) {
 		}
 		nops := rapid.IntRange(2, 12).Draw(rt, "ops")
 		hasReplayOfAccepted, hasOffset, hasConcurrent := false, false, false
+		_ = sessionTraffic
 		for i := 0; i < nops; i++ {
 			k := rapid.IntRange(0, 9).Draw(rt, "op")
 			switch {
